@@ -459,8 +459,12 @@ func formatHour(t time.Time, marker *variableMarker, hour12 bool) (string, error
 	}
 
 	h := t.Hour()
-	if hour12 && h > 12 {
-		h -= 12
+	if hour12 {
+		// The 12-hour clock runs 12, 1, 2, ..., 11.
+		h %= 12
+		if h == 0 {
+			h = 12
+		}
 	}
 	return formatIntegerComponent(h, marker)
 }
